@@ -613,6 +613,8 @@ class Interp:
             d = f"{v.dotted}.{attr}"
             if d in ("numpy.nan", "math.nan", "numpy.NaN"):
                 return NAN
+            if d in ("numpy.inf", "math.inf", "numpy.Inf"):
+                return Unknown("inf")
             return ExtV(d)
         if isinstance(v, Unknown):
             return Unknown(f"{v.tag}.{attr}")
@@ -1553,6 +1555,8 @@ def _b_isinstance(it, args, kw):
         return it.decide(f"isinstance({v.tag}, {sorted(names)})")
     if isinstance(v, (BoundBuiltin, FuncV, ClassV)):
         return bool(names & {"type", "object"})
+    if v is NAN:
+        return bool(names & {"float", "float64", "number", "Number", "floating"})
     if isinstance(v, str):
         return "str" in names
     if isinstance(v, bool):
@@ -2002,6 +2006,8 @@ def _np_all(it, args, kw):
 
 def _np_clip(it, args, kw):
     a, lo, hi = args[0], args[1], args[2]
+    if not (isinstance(a, Arr) or is_num(a)):
+        return Unknown("clip")
     def c1(x):
         if lo is not None and it.decide_num(x, ast.Lt(), lo):
             return lo
@@ -2015,6 +2021,8 @@ def _np_clip(it, args, kw):
 
 def _np_max_accumulate(it, args, kw):
     a = args[0]
+    if not isinstance(a, Arr):
+        return Unknown("maximum.accumulate")
     out, best = [], None
     for x in a.items:
         x = num(int(x)) if isinstance(x, bool) else x
